@@ -402,7 +402,13 @@ mod v_wire_views {
         let src = any_ip6();
         let dst = any_ip6();
         let mut v = V6 { checked: false, parsed: false, len, data_len: 0, lladdr: false, mtu: false, prefix: false, redirected: false };
-        if let Ok(p) = Icmpv6Packet::new_checked(b) {
+        if Icmpv6Packet::new_checked(b).is_ok() {
+            // `new_checked` = `new_unchecked` + `check_len` and the view is nothing but the buffer
+            // reference, so this is the same value as the one inside the `Ok`; taking it from there
+            // makes CBMC merge the pointer with the Err path's undefined one, the read of the
+            // (concrete) type octet stops being a constant and every parser is explored for every
+            // type (measured: echo request 63 s this way vs. 2.4 s).
+            let p = Icmpv6Packet::new_unchecked(b);
             v.checked = true;
             let t = p.msg_type();
             let _ = p.msg_code();
@@ -481,84 +487,92 @@ mod v_wire_views {
         v
     }
 
-    // @harness props=C07,C03 cfg=KW tier=q to=600 mem=4 unwind=4 covers=1 funcs=Icmpv6Packet::new_checked;Icmpv6Packet::payload;Icmpv6Repr::parse bounds=type_DstUnreachable;_any_other_bytes_len_0..=56
+    // @harness props=C07,C03 cfg=KW tier=q to=900 mem=4 unwind=2 covers=1 funcs=Icmpv6Packet::new_checked;Icmpv6Packet::payload;Icmpv6Repr::parse bounds=type_DstUnreachable;_any_other_bytes_len_0..=56
     #[kani::proof]
     pub(crate) fn view_icmpv6_dst_unreachable() {
         let v = icmpv6_view::<56>(0x01);
         kani::cover!(v.parsed && v.data_len == 8, "icmpv6 dst unreachable: embedded IPv6 header + 8 bytes parsed");
     }
-    // @harness props=C07,C03 cfg=KW tier=q to=600 mem=4 unwind=4 covers=1 funcs=Icmpv6Packet::new_checked;Icmpv6Packet::pkt_too_big_mtu;Icmpv6Repr::parse bounds=type_PktTooBig;_any_other_bytes_len_0..=56
+    // @harness props=C07,C03 cfg=KW tier=q to=900 mem=4 unwind=2 covers=1 funcs=Icmpv6Packet::new_checked;Icmpv6Packet::pkt_too_big_mtu;Icmpv6Repr::parse bounds=type_PktTooBig;_any_other_bytes_len_0..=56
     #[kani::proof]
     pub(crate) fn view_icmpv6_pkt_too_big() {
         let v = icmpv6_view::<56>(0x02);
         kani::cover!(v.parsed && v.data_len == 8, "icmpv6 packet too big: embedded IPv6 header + 8 bytes parsed");
     }
-    // @harness props=C07,C03 cfg=KW tier=q to=600 mem=4 unwind=4 covers=1 funcs=Icmpv6Packet::new_checked;Icmpv6Repr::parse bounds=type_TimeExceeded;_any_other_bytes_len_0..=56
+    // @harness props=C07,C03 cfg=KW tier=q to=900 mem=4 unwind=2 covers=1 funcs=Icmpv6Packet::new_checked;Icmpv6Repr::parse bounds=type_TimeExceeded;_any_other_bytes_len_0..=56
     #[kani::proof]
     pub(crate) fn view_icmpv6_time_exceeded() {
         let v = icmpv6_view::<56>(0x03);
         kani::cover!(v.parsed && v.data_len == 8, "icmpv6 time exceeded: embedded IPv6 header + 8 bytes parsed");
     }
-    // @harness props=C07,C03 cfg=KW tier=q to=600 mem=4 unwind=4 covers=1 funcs=Icmpv6Packet::new_checked;Icmpv6Packet::param_problem_ptr;Icmpv6Repr::parse bounds=type_ParamProblem;_any_other_bytes_len_0..=56
+    // @harness props=C07,C03 cfg=KW tier=q to=900 mem=4 unwind=2 covers=1 funcs=Icmpv6Packet::new_checked;Icmpv6Packet::param_problem_ptr;Icmpv6Repr::parse bounds=type_ParamProblem;_any_other_bytes_len_0..=56
     #[kani::proof]
     pub(crate) fn view_icmpv6_param_problem() {
         let v = icmpv6_view::<56>(0x04);
         kani::cover!(v.parsed && v.data_len == 8, "icmpv6 parameter problem: embedded IPv6 header + 8 bytes parsed");
     }
-    // @harness props=C07,C03 cfg=KW tier=q to=600 mem=4 unwind=4 covers=1 funcs=Icmpv6Packet::new_checked;Icmpv6Packet::echo_ident;Icmpv6Packet::echo_seq_no;Icmpv6Repr::parse bounds=type_EchoRequest;_any_other_bytes_len_0..=32
+    // @harness props=C07,C03 cfg=KW tier=q to=900 mem=4 unwind=2 covers=1 funcs=Icmpv6Packet::new_checked;Icmpv6Packet::echo_ident;Icmpv6Packet::echo_seq_no;Icmpv6Repr::parse bounds=type_EchoRequest;_any_other_bytes_len_0..=32
     #[kani::proof]
     pub(crate) fn view_icmpv6_echo_request() {
         let v = icmpv6_view::<32>(0x80);
         kani::cover!(v.parsed && v.data_len == 24, "icmpv6 echo request with data parsed");
     }
-    // @harness props=C07,C03 cfg=KW tier=q to=600 mem=4 unwind=4 covers=1 funcs=Icmpv6Packet::new_checked;Icmpv6Packet::echo_ident;Icmpv6Packet::echo_seq_no;Icmpv6Repr::parse bounds=type_EchoReply;_any_other_bytes_len_0..=32
+    // @harness props=C07,C03 cfg=KW tier=q to=900 mem=4 unwind=2 covers=1 funcs=Icmpv6Packet::new_checked;Icmpv6Packet::echo_ident;Icmpv6Packet::echo_seq_no;Icmpv6Repr::parse bounds=type_EchoReply;_any_other_bytes_len_0..=32
     #[kani::proof]
     pub(crate) fn view_icmpv6_echo_reply() {
         let v = icmpv6_view::<32>(0x81);
         kani::cover!(v.parsed && v.data_len == 24, "icmpv6 echo reply with data parsed");
     }
-    // @harness props=C07,C03 cfg=KW tier=q to=600 mem=4 unwind=4 covers=1 funcs=Icmpv6Packet::new_checked;Icmpv6Packet::mcast_addr;Icmpv6Packet::num_srcs;Icmpv6Repr::parse;MldRepr::parse bounds=type_MldQuery;_any_other_bytes_len_0..=48
+    // @harness props=C07,C03 cfg=KW tier=q to=900 mem=4 unwind=2 covers=1 funcs=Icmpv6Packet::new_checked;Icmpv6Packet::mcast_addr;Icmpv6Packet::num_srcs;Icmpv6Repr::parse;MldRepr::parse bounds=type_MldQuery;_any_other_bytes_len_0..=48
     #[kani::proof]
     pub(crate) fn view_icmpv6_mld_query() {
         let v = icmpv6_view::<48>(0x82);
         kani::cover!(v.parsed && v.data_len == 16, "mld query with one source parsed");
     }
-    // @harness props=C07,C03 cfg=KW tier=q to=600 mem=4 unwind=4 covers=1 funcs=Icmpv6Packet::new_checked;Icmpv6Packet::nr_mcast_addr_rcrds;Icmpv6Repr::parse;MldRepr::parse bounds=type_MldReport;_any_other_bytes_len_0..=32
+    // @harness props=C07,C03 cfg=KW tier=q to=900 mem=4 unwind=2 covers=1 funcs=Icmpv6Packet::new_checked;Icmpv6Packet::nr_mcast_addr_rcrds;Icmpv6Repr::parse;MldRepr::parse bounds=type_MldReport;_any_other_bytes_len_0..=32
     #[kani::proof]
     pub(crate) fn view_icmpv6_mld_report() {
         let v = icmpv6_view::<32>(0x8f);
         kani::cover!(v.parsed && v.data_len == 20, "mld report with one record parsed");
     }
     // NDISC option loop: every option is >= 8 bytes, a zero length ends the loop with an error
-    // @harness props=C07,C03 cfg=KW tier=q to=600 mem=4 unwind=6 opts=term covers=2 funcs=Icmpv6Packet::new_checked;Icmpv6Repr::parse;NdiscRepr::parse;NdiscOption::new_checked;NdiscOptionRepr::parse bounds=type_RouterSolicit;_any_other_bytes_len_0..=32_(<=3_options)
+    // @harness props=C07,C03 cfg=KW tier=q to=1200 mem=8 unwind=5 opts=term covers=2 funcs=Icmpv6Packet::new_checked;Icmpv6Repr::parse;NdiscRepr::parse;NdiscOption::new_checked;NdiscOptionRepr::parse bounds=type_RouterSolicit;_any_other_bytes_len_0..=32_(<=3_options)
     #[kani::proof]
     pub(crate) fn view_icmpv6_router_solicit() {
         let v = icmpv6_view::<32>(0x85);
         kani::cover!(v.parsed && v.lladdr && v.len == 32, "router solicitation: three options incl. source link-layer address parsed");
         kani::cover!(v.checked && !v.parsed && v.len == 32, "router solicitation: malformed option rejected");
     }
-    // @harness props=C07,C03 cfg=KW tier=q to=900 mem=6 unwind=8 opts=term covers=2 funcs=Icmpv6Packet::new_checked;Icmpv6Packet::router_lifetime;Icmpv6Packet::reachable_time;Icmpv6Packet::retrans_time;Icmpv6Repr::parse;NdiscRepr::parse;NdiscOption::new_checked;NdiscOptionRepr::parse bounds=type_RouterAdvert;_any_other_bytes_len_0..=64_(<=6_options)
+    // @harness props=C07,C03 cfg=KW tier=q to=1200 mem=8 unwind=6 opts=term covers=3 funcs=Icmpv6Packet::new_checked;Icmpv6Packet::router_lifetime;Icmpv6Packet::reachable_time;Icmpv6Packet::retrans_time;Icmpv6Repr::parse;NdiscRepr::parse;NdiscOption::new_checked;NdiscOptionRepr::parse bounds=type_RouterAdvert;_any_other_bytes_len_0..=48_(<=4_options)
     #[kani::proof]
     pub(crate) fn view_icmpv6_router_advert() {
+        let v = icmpv6_view::<48>(0x86);
+        kani::cover!(v.parsed && v.prefix, "router advertisement: prefix-information option parsed");
+        kani::cover!(v.parsed && v.lladdr && v.mtu, "router advertisement: link-layer and MTU options parsed");
+        kani::cover!(v.checked && !v.parsed, "router advertisement: malformed option rejected");
+    }
+    // @harness props=C07,C03 cfg=KW tier=t to=3600 mem=12 unwind=8 opts=term covers=2 funcs=Icmpv6Packet::new_checked;Icmpv6Repr::parse;NdiscRepr::parse;NdiscOption::new_checked;NdiscOptionRepr::parse bounds=type_RouterAdvert;_any_other_bytes_len_0..=64_(<=6_options)
+    #[kani::proof]
+    pub(crate) fn view_icmpv6_router_advert_t() {
         let v = icmpv6_view::<64>(0x86);
         kani::cover!(v.parsed && v.lladdr && v.mtu && v.prefix, "router advertisement: link-layer, MTU and prefix-information options parsed");
         kani::cover!(v.checked && !v.parsed, "router advertisement: malformed option rejected");
     }
-    // @harness props=C07,C03 cfg=KW tier=q to=900 mem=6 unwind=6 opts=term covers=2 funcs=Icmpv6Packet::new_checked;Icmpv6Packet::target_addr;Icmpv6Packet::neighbor_flags;Icmpv6Repr::parse;NdiscRepr::parse;NdiscOption::new_checked;NdiscOptionRepr::parse bounds=type_NeighborSolicit;_any_other_bytes_len_0..=48_(<=3_options)
+    // @harness props=C07,C03 cfg=KW tier=q to=1200 mem=8 unwind=5 opts=term covers=2 funcs=Icmpv6Packet::new_checked;Icmpv6Packet::target_addr;Icmpv6Packet::neighbor_flags;Icmpv6Repr::parse;NdiscRepr::parse;NdiscOption::new_checked;NdiscOptionRepr::parse bounds=type_NeighborSolicit;_any_other_bytes_len_0..=48_(<=3_options)
     #[kani::proof]
     pub(crate) fn view_icmpv6_neighbor_solicit() {
         let v = icmpv6_view::<48>(0x87);
         kani::cover!(v.parsed && v.lladdr && v.len == 48, "neighbor solicitation: options incl. source link-layer address parsed");
         kani::cover!(v.checked && !v.parsed, "neighbor solicitation: malformed option rejected");
     }
-    // @harness props=C07,C03 cfg=KW tier=q to=900 mem=6 unwind=6 opts=term covers=2 funcs=Icmpv6Packet::new_checked;Icmpv6Packet::target_addr;Icmpv6Packet::neighbor_flags;Icmpv6Repr::parse;NdiscRepr::parse;NdiscOption::new_checked;NdiscOptionRepr::parse bounds=type_NeighborAdvert;_any_other_bytes_len_0..=48_(<=3_options)
+    // @harness props=C07,C03 cfg=KW tier=q to=1200 mem=8 unwind=5 opts=term covers=2 funcs=Icmpv6Packet::new_checked;Icmpv6Packet::target_addr;Icmpv6Packet::neighbor_flags;Icmpv6Repr::parse;NdiscRepr::parse;NdiscOption::new_checked;NdiscOptionRepr::parse bounds=type_NeighborAdvert;_any_other_bytes_len_0..=48_(<=3_options)
     #[kani::proof]
     pub(crate) fn view_icmpv6_neighbor_advert() {
         let v = icmpv6_view::<48>(0x88);
         kani::cover!(v.parsed && v.lladdr && v.len == 48, "neighbor advertisement: options incl. target link-layer address parsed");
         kani::cover!(v.checked && !v.parsed, "neighbor advertisement: malformed option rejected");
     }
-    // @harness props=C07,C03 cfg=KW tier=q to=900 mem=6 unwind=5 opts=term covers=2 funcs=Icmpv6Packet::new_checked;Icmpv6Packet::target_addr;Icmpv6Packet::dest_addr;Icmpv6Repr::parse;NdiscRepr::parse;NdiscOption::new_checked;NdiscOptionRepr::parse bounds=type_Redirect;_any_other_bytes_len_0..=56_(<=2_options)
+    // @harness props=C07,C03 cfg=KW tier=q to=1200 mem=8 unwind=4 opts=term covers=2 funcs=Icmpv6Packet::new_checked;Icmpv6Packet::target_addr;Icmpv6Packet::dest_addr;Icmpv6Repr::parse;NdiscRepr::parse;NdiscOption::new_checked;NdiscOptionRepr::parse bounds=type_Redirect;_any_other_bytes_len_0..=56_(<=2_options)
     #[kani::proof]
     pub(crate) fn view_icmpv6_redirect() {
         let v = icmpv6_view::<56>(0x89);
@@ -593,21 +607,21 @@ mod v_wire_views {
             let _ = p.payload();
         }
     }
-    // checksum verification path (ChecksumCapabilities::default)
-    // @harness props=C07,C03 cfg=KW tier=q to=900 mem=6 unwind=8 covers=1 funcs=Icmpv6Packet::verify_checksum;Icmpv6Repr::parse bounds=type_EchoRequest;_any_other_bytes_len_0..=20
+    // checksum accessor alone: Icmpv6Repr::parse with checksums on is `verify_checksum` followed by exactly
+    // the code the harnesses above run (its one big match cannot be split per type: see icmpv6_view)
+    // @harness props=C07,C03 cfg=KW tier=q to=900 mem=6 unwind=9 covers=2 funcs=Icmpv6Packet::verify_checksum bounds=any_bytes_len_0..=24;_any_addresses
     #[kani::proof]
     pub(crate) fn view_icmpv6_cksum() {
-        const N: usize = 20;
-        let mut bytes: [u8; N] = kani::any();
-        bytes[0] = 0x80;
+        const N: usize = 24;
+        let bytes: [u8; N] = kani::any();
         let len = any_le(N);
         let b = &bytes[..len];
         let src = any_ip6();
         let dst = any_ip6();
         if let Ok(p) = Icmpv6Packet::new_checked(b) {
             let v = p.verify_checksum(&src, &dst);
-            let r = Icmpv6Repr::parse(&src, &dst, &p, &ChecksumCapabilities::default());
-            kani::cover!(!v && r.is_err() && len == N, "icmpv6: bad checksum rejected");
+            kani::cover!(!v && len == N, "icmpv6: checksum mismatch");
+            kani::cover!(v && len == N - 1, "icmpv6: checksum of an odd-length message verified");
         }
     }
 
@@ -1142,5 +1156,155 @@ mod v_wire_views {
         let b = &bytes[..len];
         let ok = pp::<IgmpPacket<&[u8]>>(b);
         kani::cover!(ok && len >= 8 && bytes[0] == 0x11, "pp igmp: printed a membership query");
+    }
+
+    // @harness props=C07 cfg=KW tier=q to=1200 mem=8 unwind=16 opts=term covers=2 funcs=PrettyPrinter::fmt;TcpPacket::pretty_print;TcpPacket::fmt;TcpOption::parse bounds=any_bytes_len_0..=32_(<=12_option_bytes)
+    #[kani::proof]
+    pub(crate) fn pp_tcp() {
+        const N: usize = 32;
+        let bytes: [u8; N] = kani::any();
+        let len = any_le(N);
+        let b = &bytes[..len];
+        let ok = pp::<TcpPacket<&[u8]>>(b);
+        kani::cover!(ok && len == N && bytes[12] == 0x80 && bytes[20] == 8 && bytes[21] == 10, "pp tcp: printed a header with a timestamp option");
+        kani::cover!(ok && len == N && bytes[12] == 0x80 && bytes[20] == 5 && bytes[21] == 10, "pp tcp: printed a header with a SACK option");
+    }
+
+    // @harness props=C07 cfg=KW tier=q to=1200 mem=8 unwind=20 covers=2 funcs=PrettyPrinter::fmt;NdiscOption::pretty_print;NdiscOptionRepr::fmt bounds=any_bytes_len_0..=40
+    #[kani::proof]
+    pub(crate) fn pp_ndisc_option() {
+        const N: usize = 40;
+        let bytes: [u8; N] = kani::any();
+        let len = any_le(N);
+        let b = &bytes[..len];
+        let ok = pp::<NdiscOption<&[u8]>>(b);
+        kani::cover!(ok && len >= 32 && bytes[0] == 3 && bytes[1] == 4, "pp ndisc option: printed prefix information");
+        kani::cover!(ok && len >= 8 && bytes[0] == 1 && bytes[1] == 1, "pp ndisc option: printed a source link-layer address");
+    }
+
+    // Nested printers.  The ICMPv4 -> IPv4 -> ICMPv4 ... recursion is bounded by the data (>= 28 bytes
+    // per round) but symbolic execution follows it to the unwind bound, which the formatting loops of
+    // core::fmt force to >= 10: the byte bounds are kept small.
+    // @harness props=C07 cfg=KW tier=q to=1500 mem=10 unwind=12 covers=2 funcs=PrettyPrinter::fmt;Icmpv4Packet::pretty_print;Icmpv4Packet::fmt;Icmpv4Repr::fmt;Ipv4Packet::pretty_print bounds=any_bytes_len_0..=36
+    #[kani::proof]
+    pub(crate) fn pp_icmpv4() {
+        const N: usize = 36;
+        let bytes: [u8; N] = kani::any();
+        let len = any_le(N);
+        let b = &bytes[..len];
+        let ok = pp::<Icmpv4Packet<&[u8]>>(b);
+        kani::cover!(ok && len >= 8 && bytes[0] == 8, "pp icmpv4: printed an echo request");
+        kani::cover!(ok && len == N && bytes[0] == 3 && bytes[8] == 0x45 && bytes[10] == 0 && bytes[11] == 28, "pp icmpv4: printed destination unreachable with the embedded IPv4 header");
+    }
+
+    // @harness props=C07 cfg=KW tier=q to=1500 mem=10 unwind=12 covers=2 funcs=PrettyPrinter::fmt;Ipv4Packet::pretty_print;Ipv4Repr::fmt;pretty_print_ip_payload;UdpRepr::fmt;TcpPacket::fmt;Icmpv4Packet::pretty_print bounds=any_bytes_len_0..=40
+    #[kani::proof]
+    pub(crate) fn pp_ipv4() {
+        const N: usize = 40;
+        let bytes: [u8; N] = kani::any();
+        let len = any_le(N);
+        let b = &bytes[..len];
+        let ok = pp::<Ipv4Packet<&[u8]>>(b);
+        kani::cover!(ok && len == N && bytes[0] == 0x45 && bytes[9] == 17 && bytes[2] == 0 && bytes[3] == 32 && bytes[6] & 0x3f == 0 && bytes[7] == 0 && bytes[22] == 1, "pp ipv4: printed a UDP datagram");
+        kani::cover!(ok && len == N && bytes[0] == 0x45 && bytes[9] == 6 && bytes[2] == 0 && bytes[3] == 40 && bytes[6] & 0x3f == 0 && bytes[7] == 0, "pp ipv4: reached the TCP printer");
+    }
+
+    // @harness props=C07 cfg=KW tier=q to=1500 mem=10 unwind=12 covers=1 funcs=PrettyPrinter::fmt;Ipv6Packet::pretty_print;Ipv6Repr::fmt;pretty_print_ip_payload;UdpRepr::fmt bounds=any_bytes_len_0..=52
+    #[kani::proof]
+    pub(crate) fn pp_ipv6() {
+        const N: usize = 52;
+        let bytes: [u8; N] = kani::any();
+        let len = any_le(N);
+        let b = &bytes[..len];
+        let ok = pp::<Ipv6Packet<&[u8]>>(b);
+        kani::cover!(ok && len == N && bytes[0] == 0x60 && bytes[6] == 17 && bytes[4] == 0 && bytes[5] == 12 && bytes[42] == 1, "pp ipv6: printed a UDP datagram");
+    }
+
+    // @harness props=C07 cfg=KW tier=q to=1500 mem=10 unwind=12 covers=2 funcs=PrettyPrinter::fmt;EthernetFrame::pretty_print;EthernetFrame::fmt;ArpPacket::pretty_print;Ipv4Packet::pretty_print;Ipv6Packet::pretty_print bounds=any_bytes_len_0..=42
+    #[kani::proof]
+    pub(crate) fn pp_ethernet() {
+        const N: usize = 42;
+        let bytes: [u8; N] = kani::any();
+        let len = any_le(N);
+        let b = &bytes[..len];
+        let ok = pp::<EthernetFrame<&[u8]>>(b);
+        kani::cover!(ok && len == N && bytes[12] == 0x08 && bytes[13] == 0x06, "pp ethernet: printed an ARP frame");
+        kani::cover!(ok && len == N && bytes[12] == 0x08 && bytes[13] == 0x00 && bytes[14] == 0x45 && bytes[16] == 0 && bytes[17] == 28, "pp ethernet: printed an IPv4 frame");
+    }
+
+    // ------------------------------------------------------------------ Display of checked views not reached by a PrettyPrint impl
+
+    // @harness props=C07 cfg=KW tier=q to=900 mem=6 unwind=12 covers=2 funcs=Ipv4Packet::fmt;Ipv4Repr::fmt bounds=any_bytes_len_0..=24
+    #[kani::proof]
+    pub(crate) fn disp_ipv4() {
+        const N: usize = 24;
+        let bytes: [u8; N] = kani::any();
+        let len = any_le(N);
+        let b = &bytes[..len];
+        if let Ok(p) = Ipv4Packet::new_checked(b) {
+            let ok = write!(NoopSink, "{}", p).is_ok();
+            kani::cover!(ok && p.version() == 4 && !p.more_frags() && p.frag_offset() == 0, "display ipv4: valid header");
+            kani::cover!(ok && p.version() != 4 && p.more_frags() && p.dscp() != 0, "display ipv4: unparsable header printed field by field");
+        }
+    }
+
+    // @harness props=C07 cfg=KW tier=q to=900 mem=6 unwind=12 covers=1 funcs=Ipv6Packet::fmt;Ipv6Repr::fmt bounds=any_bytes_len_0..=44
+    #[kani::proof]
+    pub(crate) fn disp_ipv6() {
+        const N: usize = 44;
+        let bytes: [u8; N] = kani::any();
+        let len = any_le(N);
+        let b = &bytes[..len];
+        if let Ok(p) = Ipv6Packet::new_checked(b) {
+            let ok = write!(NoopSink, "{}", p).is_ok();
+            kani::cover!(ok && p.version() == 6, "display ipv6: valid header");
+        }
+    }
+
+    // @harness props=C07 cfg=KW tier=q to=900 mem=6 unwind=20 covers=3 funcs=Ipv6FragmentHeader::fmt;Ipv6RoutingHeader::fmt;Ipv6Option::fmt;Ipv6OptionRepr::fmt;Ipv6RoutingRepr::fmt bounds=any_bytes_len_0..=24
+    #[kani::proof]
+    pub(crate) fn disp_ipv6_ext() {
+        const N: usize = 24;
+        let bytes: [u8; N] = kani::any();
+        let len = any_le(N);
+        let b = &bytes[..len];
+        if let Ok(p) = Ipv6FragmentHeader::new_checked(b) {
+            let ok = write!(NoopSink, "{}", p).is_ok();
+            kani::cover!(ok, "display: fragment header");
+        }
+        if let Ok(p) = Ipv6RoutingHeader::new_checked(b) {
+            let ok = write!(NoopSink, "{}", p).is_ok();
+            kani::cover!(ok && p.routing_type() == Ipv6RoutingType::Type2, "display: type 2 routing header");
+        }
+        if let Ok(p) = Ipv6Option::new_checked(b) {
+            let ok = write!(NoopSink, "{}", p).is_ok();
+            kani::cover!(ok && p.option_type() == Ipv6OptionType::RouterAlert, "display: router alert option");
+        }
+    }
+
+    // @harness props=C07 cfg=KW tier=q to=900 mem=6 unwind=20 covers=1 funcs=NdiscOption::fmt;NdiscOptionRepr::fmt bounds=any_bytes_len_0..=40
+    #[kani::proof]
+    pub(crate) fn disp_ndisc_option() {
+        const N: usize = 40;
+        let bytes: [u8; N] = kani::any();
+        let len = any_le(N);
+        let b = &bytes[..len];
+        if let Ok(p) = NdiscOption::new_checked(b) {
+            let ok = write!(NoopSink, "{}", p).is_ok();
+            kani::cover!(ok && p.option_type() == NdiscOptionType::Mtu, "display: MTU option");
+        }
+    }
+
+    // @harness props=C07 cfg=KW tier=q to=900 mem=6 unwind=20 covers=1 funcs=Ieee802154Frame::fmt bounds=any_bytes_len_0..=28
+    #[kani::proof]
+    pub(crate) fn disp_ieee802154() {
+        const N: usize = 28;
+        let bytes: [u8; N] = kani::any();
+        let len = any_le(N);
+        let b = &bytes[..len];
+        if let Ok(p) = Ieee802154Frame::new_checked(b) {
+            let ok = write!(NoopSink, "{}", p).is_ok();
+            kani::cover!(ok && matches!(p.dst_addr(), Some(Ieee802154Address::Extended(_))) && p.src_pan_id().is_some(), "display: frame with extended destination and source PAN");
+        }
     }
 }
